@@ -459,7 +459,10 @@ class ExprMixin:
         st.assume(f"(forall (({x} V)) (! (= (seq_has_pyeq (sitems {r.t}) {x} 0) {rhs}) :pattern ((seq_has_pyeq (sitems {r.t}) {x} 0))))")
         # non-emptiness witness facts (what truthiness of the result needs)
         if isinstance(op, ast.Sub):
-            st.assume(Eq(f"(> (seq.len (sitems {r.t})) 0)", f"(some_missing (sitems {asV(la)}) {asV(lb)} 0)"))
+            # provenance: set(A) - set(B) is non-empty iff some element of A is not `in` B
+            sa = self.set_src.get(la.t, la)
+            sb = self.set_src.get(lb.t, lb)
+            st.assume(Eq(f"(> (seq.len (sitems {r.t})) 0)", f"(some_missing (seqof {asV(sa)}) {asV(sb)} 0)"))
         self.trusted_used.add("set algebra: membership of |,&,- ; (a - b) non-empty iff some element of a is not in b (library axiom)")
         return [(st, r)]
 
@@ -542,9 +545,20 @@ class ExprMixin:
             return self.call_function(st, fn, [base, idx], {}, node, selfcls=cls)
         lb, li = self.lift(base), self.lift(idx)
         tb = asV(lb)
+        hint = None
+        try:
+            src = ast.unparse(node)
+        except Exception:
+            src = None
+        if src and src in self.contract.kinds:
+            hint = self.kind_hint(self.contract.kinds[src])
         if lb.kind == "dict" and (li.sort == "S" or li.kind == "str"):
-            val = Val(f"(dval {tb} {asS(li)})")
-            return self.raising(st, val, [(KeyError, Not(f"(dhas {tb} {asS(li)})"))], node)
+            val = Val(f"(dval {tb} {asS(li)})", kind=hint[0] if hint else None, cls=hint[1] if hint else None,
+                      origin=(f"{lb.origin}[{asS(li)}]" if lb.origin else None))
+            res = self.raising(st, val, [(KeyError, Not(f"(dhas {tb} {asS(li)})"))], node)
+            if hint:
+                self.obl("kind", node, res[-1][0], self.kind_pred(hint, val.t), detail=f"{src} is {hint[0]}")
+            return res
         if lb.kind in ("list", "tuple") and (li.sort == "I" or li.kind == "int"):
             i = asI(li)
             ln = f"(seq.len (seqof {tb}))"
